@@ -1012,6 +1012,18 @@ class CallMixin:
                     self.st.pc.append(self.eval_spec(cond_fn, {**post_vals, "old": old}, c))
                 if not self.feasible():
                     raise PathEnd()
+                # what the callee's contract says about its exceptional exits (raised_<Exc>_*, raised_any_*): proved
+                # for the callee, assumed here; clauses that mention the exception value see a fresh one
+                from .stmt import BUILTIN_EXC_MRO as _MRO
+                keys = list(_MRO.get(exc_name, [exc_name])) + ["any"]
+                for k_ in keys:
+                    for cname, efn in c.raised.get(k_, {}).items():
+                        if (c.fq, cname) in self.specs.unproved:
+                            continue
+                        vals = {**post_vals, "old": old}
+                        if "exc" in [a_.arg for a_ in efn.node.args.args]:
+                            vals["exc"] = SV(self.w.fresh(T.EXC, "callee_exc"), T.EXC)
+                        self.side_fact(self.eval_spec(efn, vals, c))
                 self.raise_builtin(exc_name, line)
         result = self.fresh_value(self.ret_type(fi) if c.ret_type is None else c.ret_type, f"{name}.ret")
         for cname, efn in c.ensures.items():
